@@ -20,6 +20,12 @@ spec/C04/Sb2Hist.tla      the HISTORY of one live builder object: queries (str /
                           (with a refutation run of the accumulating variant); GEN: all histories up to MaxLen calls.  HISTORY LANE: every
                           history is replayed on a real BootImageV20 / V21 object, EVERY export is walked by the executor, and the whole history
                           is one trace of Sb2RomTrace (kind "hist": the content is state of the spec, every export is bound to it)
+spec/C04/Sb2Own.tla       OWNERSHIP of what is handed over: where the API admits a caller-owned mutable buffer (a bytearray as LOAD data), what is
+                          given is what the buffer holds WHEN the command is made; the caller goes on modifying its buffer (in place / shorter /
+                          longer) after the construction and before the first export that carries the command; the same object may be put
+                          twice.  MC: every export carries what was given (refutation runs: a builder that keeps a reference, a builder that
+                          copies when the command is put).  OWNERSHIP LANE: every selected history is replayed with a real bytearray; the
+                          buffer is state of Sb2RomTrace (HBuf / HTouch / HMake / HPut), so TLC computes what was given from the caller's steps
 spec/C04/Sb2Config.tla    the CONFIGURATION PATH (BootImageV21.load_from_config / SB21Helper, what `nxpimage sb21 export` runs on a BD / YAML
                           file): statement kind x memory-option class (absent, internal, name, number of a named memory, number without a name
                           incl. group bits; integers and strings) x data source (file, blob, words, pattern), Expected(statement) = abstract
@@ -365,6 +371,87 @@ def concretise_hist(h, idx, r, plain_tour, residue_tour, ks_ids):
     return g
 
 
+# ------------------------------------------------------------------ ownership lane (Sb2Own): the caller's mutable buffer, handed over and modified afterwards
+OWN_COMBOS = [(v, lc) for lc in ("ragged", "aligned") for v in ("21", "20u", "21sha", "20s")]
+
+
+def own_exposed(acts):
+    """Does the history modify the buffer while an object made from the buffer ITSELF exists (the class a referencing builder gets wrong)?"""
+    held = False
+    for a in acts:
+        held = held or (a["a"] == "Make" and a["form"] == "buf")
+        if a["a"] == "Touch" and held:
+            return True
+    return False
+
+
+def own_select(hists, quick, top_quota):
+    """Histories of Sb2Own -> [(history, version, length class)].  Every call sequence shorter than the longest enumerated length is replayed
+    (up to 4 calls: for every version x length class if the buffer is modified while a command made from the buffer itself is held, else for
+    two; longer ones: one combination in rotation, thorough: two for 5 calls); of the longest length `top_quota` sequences at a fixed stride over the
+    sorted list (deterministic - nothing about the selection is random)."""
+    hs = sorted(hists, key=lambda h: json.dumps(h["acts"], sort_keys=True))
+    top = max(len(h["acts"]) for h in hs)
+    longest = [h for h in hs if len(h["acts"]) == top]
+    stride = max(1, len(longest) // top_quota)
+    out = []
+    for i, h in enumerate([h for h in hs if len(h["acts"]) < top] + longest[::stride]):
+        n = len(h["acts"])
+        k = (len(OWN_COMBOS) if own_exposed(h["acts"]) else 2) if n <= 4 else 2 if (n == 5 and not quick) else 1
+        out += [(h, *OWN_COMBOS[(i + j) % len(OWN_COMBOS)]) for j in range(k)]
+    return out
+
+
+def call_name(c):
+    a = c["a"].lower()
+    return {"make": f"make:{c.get('form')}", "put": f"put:{c.get('place')}", "touch": f"touch:{c.get('kind')}"}.get(a, a)
+
+
+def concretise_own(h, ver_name, lenc, idx, r, plain_tour, residue_tour, ks_ids):
+    """History emitted by TLC (Sb2Own) -> constructor input + calls with seeded values.  The caller's buffer is simulated here only to choose
+    positions that exist (what the buffer holds is logged by the worker from the real bytearray and re-computed by TLC)."""
+    ver, sha = HIST_VERS[ver_name]
+    signed = list(CHAIN_TAB)
+    shape = {"ver": ver, "sha": sha, "chain": "none" if ver == "20u" else signed[idx % len(signed)], "secs": [{"hm": 1, "cmds": [0]}]}
+    g = concretise(shape, idx, r, plain_tour, residue_tour, ks_ids, [0])
+    uids = {s["uid"] for s in g["secs"]}
+    res = residue_tour[0]
+    residue_tour.append(residue_tour.pop(0))
+    n0 = 16 * r.choice([1, 2, 3]) + (0 if lenc == "aligned" else (res or 7))
+    buf = bytearray(r.randrange(1, 256) for _ in range(n0))
+    calls = [{"a": "Buf", "content": bytes(buf).hex()}]
+    for a in h["acts"]:
+        k = a["a"]
+        if k == "Make":
+            calls.append({"a": k, "form": a["form"], "addr": w32(r), "mem": r.choice(MEMS), "zf": r.random() < 0.5})
+        elif k == "Put":
+            u = w32(r)
+            while u in uids:
+                u = r.getrandbits(32)
+            uids.add(u)
+            calls.append({"a": k, "place": a["place"], "uid": u, "hmacReq": r.choice([1, 2]), "zero": r.random() < 0.5})
+        elif k == "Touch":
+            n = len(buf)
+            kind = a["kind"] if n > 4 or a["kind"] != "shrink" else "grow"      # (a buffer that has become very short grows again)
+            if kind == "poke":      # one byte at either end, the four bytes of a marker, the whole buffer (refilled with the next chunk)
+                at, ln = r.choice([(0, 1), (n - 1, 1), (r.randrange(n), 1), (r.randrange(max(1, n - 3)), min(4, n)), (0, n)])
+                new = bytes(b ^ r.randrange(1, 256) for b in buf[at:at + ln])
+                buf[at:at + ln] = new
+            elif kind == "shrink":  # by at least 4 bytes (what is cut off must not be mistaken for padding), sometimes over a block boundary, sometimes to one byte
+                at, new = r.choice([n - 4, max(1, n - 16), max(1, n - 17), 1, r.randrange(1, n - 3)]), b""
+                del buf[at:]
+            else:                   # by at least one cipher block (a few more bytes inside the last block are indistinguishable from padding)
+                at, new = 0, bytes(r.randrange(1, 256) for _ in range(r.choice([16, 17, 32, 40])))
+                buf += new
+            calls.append({"a": k, "kind": kind, "at": at, "bytes": new.hex()})
+        else:
+            calls.append({"a": k})
+    g["hist"] = calls
+    g["own"] = {"lenc": lenc, "model": h["acts"]}
+    g["hist_name"] = ">".join(call_name(c) for c in calls[1:])
+    return g
+
+
 def process_hist(sp, job):
     """One history on one live object: every call is logged as one event, every export is followed by the executor's walk of the bytes it returned."""
     g = job["g"]
@@ -378,11 +465,48 @@ def process_hist(sp, job):
         act_of.append(k)
 
     k = -1
+    bufs, objs = [], []        # ownership lane: the caller's buffers (real bytearrays) and the command objects made from them
+    mine = [None]              # what the caller last left in its buffer
+
+    def converse(where):       # OBSERVATION only (no verdict): did anything but the caller change the caller's buffer?
+        if bufs and mine[0] is not None and bytes(bufs[-1]) != mine[0] and "buffer_modified_by_spsdk" not in out:
+            out["buffer_modified_by_spsdk"] = where
+
     try:
         img = sp.make_image(g)
         for k, c in enumerate(g["hist"]):
             a = c["a"]
-            if a == "Export":
+            if a == "Buf":
+                bufs.append(bytearray.fromhex(c["content"]))
+                mine[0] = bytes(bufs[-1])
+                log(k, {"ev": "HBuf", "content": list(bufs[-1])})
+            elif a == "Touch":          # the caller modifies ITS buffer, in place (the same bytearray object all along)
+                converse(k)
+                buf, new = bufs[-1], bytes.fromhex(c["bytes"])
+                if c["kind"] == "poke":
+                    buf[c["at"]:c["at"] + len(new)] = new
+                elif c["kind"] == "shrink":
+                    del buf[c["at"]:]
+                else:
+                    buf += new
+                mine[0] = bytes(buf)
+                log(k, {"ev": "HTouch", "buf": len(bufs), "kind": c["kind"], "at": c["at"], "bytes": list(new)})
+            elif a == "Make":           # what is given: the buffer itself, or a copy made by the caller (control)
+                data = bufs[-1] if c["form"] == "buf" else bytes(bufs[-1])
+                objs.append(sp.C.CmdLoad(address=c["addr"], data=data, mem_id=c["mem"], zero_filling=c["zf"]))
+                log(k, {"ev": "HMake", "buf": len(bufs), "form": c["form"], "a": limbs(c["addr"]), "m": memsplit(c["mem"])})
+            elif a == "Put":
+                if c["place"] == "append":
+                    img[len(img) - 1].append(objs[-1])
+                else:
+                    img.add_boot_section(sp.Section(c["uid"], objs[-1], hmac_count=c["hmacReq"], zero_filling=c["zero"]))
+                log(k, {"ev": "HPut", "obj": len(objs), "place": c["place"], "uid": limbs(c["uid"]), "hmacReq": c["hmacReq"]})
+            elif a == "Query":
+                str(img), repr(img), img.raw_size, len(img)
+                log(k, {"ev": "HDescribe"})
+                img.update()
+                log(k, {"ev": "HUpdate"})
+            elif a == "Export":
                 log(k, {"ev": "HExport"})
                 data = img.export(padding=bytes.fromhex(g["exp_pad"]) if g["exp_pad"] else None)
                 out["len"] += len(data)
@@ -419,6 +543,7 @@ def process_hist(sp, job):
     except Exception as x:  # noqa: BLE001  a call the object refuses: no step of the history spec matches this event
         out["build"] = f"{type(x).__name__}: {x}"[:200]
         log(max(k, 0), {"ev": "CallFailed", "exc": out["build"]})
+    converse(len(g["hist"]))
     out["traces"].append(mk_trace(f"hist-{idx}", "hist", "clean", evs, given=given_record(g), idx=idx, ver=ver, act_of=act_of))
     return out
 
@@ -426,6 +551,9 @@ def process_hist(sp, job):
 def hist_key(t, g, ev_index, clause):
     """Finding key of a history: version, the calls up to and including the one that failed, the clause."""
     k = t["act_of"][min(ev_index, len(t["act_of"]) - 1)] if t["act_of"] else 0
+    if g.get("own"):        # ownership lane: the calls (the creation of the buffer is not named), length class of the buffer at the start
+        calls = ">".join(call_name(c) for c in g["hist"][1:k + 1])
+        return f"C04/own/{vname(t['ver'])}/{g['own']['lenc']}/{calls}/{clause}"
     calls = ">".join(c["a"].lower() for c in g["hist"][:k + 1])
     return f"C04/hist/{vname(t['ver'])}/{calls}/{clause}"
 
@@ -657,7 +785,9 @@ class Spsdk:
         if n == "CmdFill":
             return C.CmdFill(d[1], d[2]) if d[3] is None else C.CmdFill(d[1], d[2], d[3])
         if n == "CmdLoad":
-            return C.CmdLoad(address=d[1], data=bytes.fromhex(d[2]), mem_id=d[3], zero_filling=d[4])
+            # (the constructor admits bytes and bytearray: both forms are handed over, chosen by the length of the data - a property of the case, not of the run)
+            data = bytes.fromhex(d[2])
+            return C.CmdLoad(address=d[1], data=bytearray(data) if len(data) % 3 == 1 else data, mem_id=d[3], zero_filling=d[4])
         raise Machinery(f"no constructor {n}")
 
     def make_section(self, s):
@@ -1240,6 +1370,32 @@ def canary(v):
     h3 = variant(hg, "canary-hist-stale-content", lambda t: t["ev"].insert(second, {"ev": "HAppendCmd", "c": acmd("reset")}))
     h4 = variant(hg, "canary-hist-stale-id", lambda t: t["ev"].insert(second, {"ev": "HSetUid", "uid": [0, 9]}))
     h5 = variant(hg, "canary-hist-export-inside-file", lambda t: t["ev"].insert(second + 3, {"ev": "HExport"}))
+    # ownership canary: the golden as the export of an object whose LOAD command was made from a caller-owned buffer that its owner modified
+    # afterwards (accepted: the file carries what the buffer held when the command was made); the same file as a builder that kept a reference
+    # would have produced it (the file carries what the buffer holds at the export), as a builder that copied when the command was put into the
+    # section would have; a modification outside the buffer
+    cmds7 = given["secs"][0]["cmds"]
+    pay = list(bytes(load["payload"]))
+    before = pay[:5] + [pay[5] ^ 1] + pay[6:]
+    og = dict(given, secs=[dict(given["secs"][0], cmds=cmds7[:3])])
+    o_make, o_put = {"ev": "HMake", "buf": 1, "form": "buf", "a": [0, 0], "m": [0, 0]}, {"ev": "HPut", "obj": 1, "place": "append", "uid": [0, 0], "hmacReq": 0}
+    o_rest = [{"ev": "HAppendCmd", "c": c} for c in cmds7[4:]]
+
+    def own_trace(tid, content, touches, late=False):
+        head = [{"ev": "HBuf", "content": content}, o_make] + (touches + [o_put] if late else [o_put]) + o_rest + ([] if late else touches)
+        return mk_trace(tid, "hist", "clean", head + [{"ev": "HExport"}] + marked, given=og, ver="21")
+
+    def touch(kind, at, new):
+        return {"ev": "HTouch", "buf": 1, "kind": kind, "at": at, "bytes": new}
+
+    o_good = [own_trace("canary-own-good", pay, [touch("poke", 5, [pay[5] ^ 1])]),
+              own_trace("canary-own-good-resized", pay, [touch("shrink", 3, []), touch("grow", 0, [1, 2, 3]), touch("poke", 4, [9, 9])]),
+              own_trace("canary-own-good-touched-before-made", before, [])]
+    o_good[2]["ev"].insert(1, touch("poke", 5, [pay[5]]))
+    o_bad = [own_trace("canary-own-file-carries-the-buffer-at-export", before, [touch("poke", 5, [pay[5]])]),
+             own_trace("canary-own-file-carries-the-buffer-at-put", before, [touch("poke", 5, [pay[5]])], late=True),
+             own_trace("canary-own-touch-outside-the-buffer", pay, [touch("poke", len(pay), [1])]),
+             own_trace("canary-own-file-carries-the-shrunk-buffer", pay + [7] * 16, [touch("shrink", len(pay), [])])]
     # second observer canary
     ref = ref_of(evs)
     pev = [{"ev": "ParseOutcome", "outcome": "returned", "exc": ""}, {"ev": "PField", "name": "product_version", "got": [1, 0, 0]},
@@ -1251,7 +1407,7 @@ def canary(v):
     pd = variant(pb, "canary-parse-tamper-different", lambda t: t.__setitem__("mode", "tamper"))
     # a truncated file parsed "successfully" into fewer sections
     pf = mk_trace("canary-parse-truncated-fewer-sections", "parse", "tamper", [pev[0], pev[1], {"ev": "PEnd", "nsec": 0}], ref=ref, ver="21")
-    allt = tr + bad + [bound, b2, b3, b4, b5, b6, b7, pg, pb, pr, pt, pd, pf, hg, h2, h3, h4, h5] + t_good + t_bad + cut_tr + [c_good, c_bad]
+    allt = tr + bad + [bound, b2, b3, b4, b5, b6, b7, pg, pb, pr, pt, pd, pf, hg, h2, h3, h4, h5] + t_good + t_bad + cut_tr + [c_good, c_bad] + o_good + o_bad
     if hg["ev"][second]["ev"] != "HExport" or hg["ev"][second + 1]["ev"] != "ParseHeader":
         raise Machinery("canary: history trace not laid out as expected")
     rej, soft = validate(allt)
@@ -1268,11 +1424,11 @@ def canary(v):
     for i in ["canary-bound-cv", "canary-bound-hmacreq", "canary-image-blocks", "canary-hist-stale-id", "canary-cuts-one-boundary-missing"] + [t["id"] for t in t_bad + cut_tr]:
         if i in soft:
             rej.setdefault(i, (0, 0, "soft:" + "+".join(soft[i])))
-    must_accept = set(good_ids) | {"canary-bound-good", "canary-parse-good", "canary-parse-raised-tamper", "canary-hist-good", "canary-cuts-complete"} | {t["id"] for t in t_good}
+    must_accept = set(good_ids) | {"canary-bound-good", "canary-parse-good", "canary-parse-raised-tamper", "canary-hist-good", "canary-cuts-complete"} | {t["id"] for t in t_good + o_good}
     must_reject = {t["id"] for t in bad} | {"canary-bound-addr", "canary-bound-data", "canary-bound-cv", "canary-bound-hmacreq", "canary-bound-keys", "canary-parse-cmd",
                                             "canary-parse-raised-clean", "canary-parse-tamper-different", "canary-bound-mem", "canary-hist-accumulated",
                                             "canary-hist-stale-content", "canary-hist-stale-id", "canary-hist-export-inside-file",
-                                            "canary-parse-truncated-fewer-sections", "canary-cuts-one-boundary-missing"} | {t["id"] for t in t_bad + cut_tr}
+                                            "canary-parse-truncated-fewer-sections", "canary-cuts-one-boundary-missing"} | {t["id"] for t in t_bad + cut_tr + o_bad}
     if (must_accept & set(rej)) or (must_reject - set(rej)):
         raise Machinery(f"canary failed: wrongly rejected {[(i, rej[i]) for i in sorted(must_accept & set(rej))]}, "
                         f"wrongly accepted {sorted(must_reject - set(rej))}")
@@ -1341,12 +1497,35 @@ def hist_gen(tier):
     res = tlc.mc("C04", "Sb2Hist", "Sb2HistGen.cfg" if tier == "quick" else "Sb2HistGen_t.cfg", workers=1, heap="4g", timeout=900, deadlock=False,
                  require_actions=HIST_ACTIONS)
     hists = res.json_prints()
-    if len(hists) != res.coverage.get("DoExport", (0, 0))[0] or len(hists) < 1000:
-        raise Machinery(f"Sb2Hist: {len(hists)} histories emitted, Export fired {res.coverage.get('DoExport')}")
+    # (TLC prints an interim coverage report every minute of a run; the counters of the LAST report are the ones of the complete run)
+    import re
+    fired = re.findall(r"^<DoExport line [^>]*>: (\d+):\d+", res.out.rsplit("The coverage statistics at", 1)[-1], re.M)
+    if [str(len(hists))] != fired or len(hists) < 1000:
+        raise Machinery(f"Sb2Hist: {len(hists)} histories emitted, Export fired {fired} (all reports: {res.coverage.get('DoExport')})")
     res.out = res.out[-3000:]
     ref = tlc.run("C04", "Sb2Hist", "Sb2HistRefute.cfg", workers=1, deadlock=False, heap="2g", timeout=300)
     if ref.violated != "ExportDescribes":
         raise Machinery(f"Sb2Hist refutation run: the accumulating variant was not refuted ({ref.violated})")
+    return hists, res
+
+
+OWN_ACTIONS = ("DoMake", "DoPut", "DoTouch", "DoQuery", "DoExport")
+
+
+def own_gen(tier):
+    """MC + GEN of the ownership histories (Sb2Own): lemmas over every history, every history that hands over a command and ends in an export
+    emitted; and the refutation runs: a builder that keeps a reference to the caller's buffer, and one that copies only when the command is put
+    into a section, must both violate ExportCarriesGiven (the space reaches those classes). -> (histories, TlcResult)"""
+    res = tlc.mc("C04", "Sb2Own", "Sb2OwnGen.cfg" if tier == "quick" else "Sb2OwnGen_t.cfg", workers=1, heap="4g", timeout=900, deadlock=False,
+                 require_actions=OWN_ACTIONS)
+    hists = res.json_prints()
+    if len(hists) < 2500 or len({json.dumps(h, sort_keys=True) for h in hists}) != len(hists):
+        raise Machinery(f"Sb2Own: {len(hists)} histories emitted (Export fired {res.coverage.get('DoExport')})")
+    res.out = res.out[-3000:]
+    for cfg in ("Sb2OwnRefute.cfg", "Sb2OwnRefuteLate.cfg"):
+        ref = tlc.run("C04", "Sb2Own", cfg, workers=1, deadlock=False, heap="2g", timeout=300)
+        if ref.violated != "ExportCarriesGiven":
+            raise Machinery(f"Sb2Own refutation run {cfg}: the variant was not refuted ({ref.violated})")
     return hists, res
 
 
@@ -1427,6 +1606,7 @@ def _run(tier, sp, v, r, quick, mc_future):
     gen_future = submit(gen_all_child, tier)
     ops_future = submit(operand_cases, tier)
     hist_future = submit(hist_gen, tier)
+    own_future = submit(own_gen, tier)
     cfg_future = submit(config_cases)
     time_future = submit(time_cases, tier)
     canary(v)
@@ -1512,6 +1692,18 @@ def _run(tier, sp, v, r, quick, mc_future):
         jobs.append({"g": g, "hist": True})
     say(f"[C04] history lane: {len(hists)} histories (calls on one live object, ending in an export) enumerated by TLC, {len(hsel)} replayed "
         f"(all shorter call sequences for every version, the longest in rotation over version / initial content) ({v.timer.s()}s)")
+    # ownership lane: histories of Sb2Own (a caller-owned bytearray handed over as LOAD data and modified afterwards) on one live object
+    owns, own_mc = own_future.result()
+    osel = own_select(owns, quick, 200 if quick else 2000)
+    n_own0 = len(jobs)
+    for h, ver_name, lenc in osel:
+        g = concretise_own(h, ver_name, lenc, len(jobs), rng(PROP, "own", len(jobs) - n_own0), plain_tour, residue_tour, sp.ks_ids)
+        jobs.append({"g": g, "hist": True})
+    n_exposed = sum(1 for h, _v, _l in osel if own_exposed(h["acts"]))
+    if n_exposed < 200 or len({(v, lc) for h, v, lc in osel if own_exposed(h["acts"]) and len(h["acts"]) <= 4}) < len(OWN_COMBOS):
+        raise Machinery(f"ownership lane: only {n_exposed} selected histories modify the buffer while a command made from it is held")
+    say(f"[C04] ownership lane: {len(owns)} histories (a caller-owned buffer handed over as LOAD data - itself or as a copy -, modified by its owner, put into "
+        f"sections, queried, exported) enumerated by TLC, {len(osel)} replayed, {n_exposed} of them modify the buffer while a command made from it is held ({v.timer.s()}s)")
     results = pmap(lambda job: process_hist(sp, job) if job.get("hist") else process(sp, job), jobs, chunksize=2)
     traces = [t for res in results for t in res["traces"]]
     by_idx = {j["g"]["idx"]: j["g"] for j in jobs}
@@ -1595,13 +1787,17 @@ def _run(tier, sp, v, r, quick, mc_future):
             v.violation(soft_key(t, name), f"{vname(ver)} file #{idx}: {who} trace: clause {name} is FALSE: {json.dumps(detail)[:600]}",
                         {"g": by_idx[idx], "trace": _strip(t), "soft": name})
     # histories: every export of every history must have been accepted, bound to the content the object held at that moment
-    hist_stats = {"histories": len(hist_tr), "exports": n_exports, "accepted_to_the_end": 0, "by_version": {}}
+    all_hist_stats = {lane: {"histories": 0, "exports": 0, "accepted_to_the_end": 0, "by_version": {}} for lane in ("history_lane", "ownership_lane")}
+    all_hist_stats["ownership_lane"].update(buffer_modified_while_a_command_made_from_it_is_held=n_exposed, refuted_variants=["keeps a reference to the caller's buffer", "copies when the command is put into a section"])
     for t in hist_tr:
         idx, ver, g = t["idx"], t["ver"], by_idx[t["idx"]]
+        hist_stats = all_hist_stats["ownership_lane" if g.get("own") else "history_lane"]
+        hist_stats["histories"] += 1
+        hist_stats["exports"] += res_by_idx[idx].get("exports", 0)
         st = hist_stats["by_version"].setdefault(vname(ver) + ("+sha" if g["sha"] else ""), [0, 0])
         st[0] += 1
         if t["id"] not in rej_hist:
-            if not t["ev"] or t["ev"][-1]["ev"] not in ("Accept", "HDescribe", "HUpdate", "HAddSection", "HAppendCmd", "HReplaceCmd", "HSetUid"):
+            if not t["ev"] or t["ev"][-1]["ev"] not in ("Accept", "HDescribe", "HUpdate", "HAddSection", "HAppendCmd", "HReplaceCmd", "HSetUid", "HBuf", "HTouch", "HMake", "HPut"):
                 raise Machinery(f"history {t['id']} was consumed by TLC but does not end in an accepted export / a call: {short(t['ev'][-1]) if t['ev'] else None}")
             st[1] += 1
             hist_stats["accepted_to_the_end"] += 1
@@ -1623,7 +1819,12 @@ def _run(tier, sp, v, r, quick, mc_future):
                         f"{vname(ver)} history #{idx} ({g['hist_name']}): export #{nexp}: clause {clause} is FALSE: header in file "
                         f"{json.dumps({k: x for k, x in hdr.items() if k in ('flags', 'pv', 'cv', 'build', 'ts', 'fileBlocks', 'imageBlocks', 'firstTag', 'firstId', 'maxMac')})[:400]}",
                         {"g": g, "trace": _strip(t), "soft": name, "hist": True})
-    v.extra["history_lane"] = hist_stats
+    touched_by_callee = [(res["idx"], res["buffer_modified_by_spsdk"]) for res in results if "buffer_modified_by_spsdk" in res]
+    all_hist_stats["ownership_lane"]["observation_histories_in_which_spsdk_modified_the_callers_buffer"] = len(touched_by_callee)
+    if touched_by_callee:       # the converse (the builder never writes into the caller's buffer) is recorded, not asserted
+        say(f"OBSERVATION: property=C04 ownership lane: the caller's buffer was modified by something other than the caller in {len(touched_by_callee)} histories, "
+            f"e.g. history #{touched_by_callee[0][0]} (noticed at call #{touched_by_callee[0][1] + 1}) - not asserted")
+    v.extra.update(all_hist_stats)
     # tampered / wrong-KEK: the ROM automaton must reject (else my model has a hole: machinery), parse() must raise or return the same content
     tamper_stats, holes = {}, []
     for t in usable:
@@ -1660,7 +1861,7 @@ def _run(tier, sp, v, r, quick, mc_future):
         "anchors/C04: 14 golden files of the reference tool (elftosb) that the automaton must accept at every start",
         "nothing from spsdk.crypto / spsdk.sbfile on the deciding side; TLC decides every trace",
     ]
-    v.extra["checker_cmd"] = "tlc2.TLC -config Sb2RomMC*.cfg Sb2RomMC.tla (MC), -config Sb2RomGen*.cfg (GEN), -config Sb2RomTrace.cfg Sb2RomTrace.tla (TV); -config Sb2OperandsMC.cfg Sb2OperandsMC.tla, -config Sb2Config.cfg Sb2Config.tla, -config Sb2HistGen.cfg / Sb2HistRefute.cfg Sb2Hist.tla, -config Sb2TimeMC.cfg Sb2TimeMC.tla (MC + GEN of the lanes)"
+    v.extra["checker_cmd"] = "tlc2.TLC -config Sb2RomMC*.cfg Sb2RomMC.tla (MC), -config Sb2RomGen*.cfg (GEN), -config Sb2RomTrace.cfg Sb2RomTrace.tla (TV); -config Sb2OperandsMC.cfg Sb2OperandsMC.tla, -config Sb2Config.cfg Sb2Config.tla, -config Sb2HistGen.cfg / Sb2HistRefute.cfg Sb2Hist.tla, -config Sb2OwnGen.cfg / Sb2OwnRefute.cfg / Sb2OwnRefuteLate.cfg Sb2Own.tla, -config Sb2TimeMC.cfg Sb2TimeMC.tla (MC + GEN of the lanes)"
     v.extra["tamper"] = tamper_stats
     v.extra["tamper_rejected"] = sum(s["rejected"] for k, s in tamper_stats.items() if k.startswith("rom/"))
     v.extra["files"] = {"built": n_built, "bytes": sum(res["len"] for res in results)}
@@ -1731,6 +1932,7 @@ def _run(tier, sp, v, r, quick, mc_future):
     if cut_stats["cut_positions"] < 100 and not any(f"rom-{i}" in rej_clean for i in cut_ids):
         raise Machinery(f"cut lane: only {cut_stats['cut_positions']} cut positions were explored")
     v.add_mc(hist_mc)
+    v.add_mc(own_mc)
     mcs = [res for f in mc_future for res in f.result()]
     for res, n in zip(mcs, gen_counts):
         v.add_mc(res)
@@ -1753,7 +1955,14 @@ def _run(tier, sp, v, r, quick, mc_future):
                      "TLC enumerates the histories of one live builder object (Sb2Hist: str / update / add section / append command / replace command / set "
                      "section id / export, up to 4 calls quick, 5 thorough, per version and initial content), each selected history is replayed on a real "
                      "object and EVERY export in it is walked by the executor, bound to the content the object held at that moment (state of the trace "
-                     "spec); TIME LANE: TLC enumerates the time-stamp case space (Sb2TimeMC: naive / aware x UTC offset [0, whole, half and quarter hours east "
+                     "spec); OWNERSHIP LANE: TLC enumerates the histories of a caller-owned mutable buffer (Sb2Own: a LOAD command is made from the "
+                     "bytearray itself or from a copy, the owner then modifies the buffer in place / cuts it / extends it - after the construction of a "
+                     "command and before the first export that carries it, i.e. before the command is put or before that export; the file is exported "
+                     "again later -, the command object is appended or becomes a new section, possibly twice, queries and "
+                     "exports in between; up to 6 calls quick, 7 thorough; variants 'keeps a reference' and 'copies when put' refuted by TLC), every "
+                     "sequence shorter than the longest is replayed with a real bytearray (up to 4 calls: for every version x buffer length class, else "
+                     "in rotation), the longest at a fixed stride; the buffer is state of the trace spec (HBuf / HTouch / HMake / HPut): TLC computes "
+                     "what was given from the caller's own steps and binds every export to it; TIME LANE: TLC enumerates the time-stamp case space (Sb2TimeMC: naive / aware x UTC offset [0, whole, half and quarter hours east "
                      "and west, +14 h, -12 h, +-23:59] x wall-clock digits [first seconds of 2000-01-01 UTC for every offset, leap day, 2^31 / 2^32 seconds since "
                      "1970 and since 2000, year 2273] x microseconds [0, 1, 500000, 999999] x local zone of the building process [UTC, +05:30, -08:00; aware "
                      "values only]; one dimension against the others, thorough: the product) and a file is built for EVERY case in every run - the clause "
@@ -1790,6 +1999,13 @@ def _run(tier, sp, v, r, quick, mc_future):
         "history lane: queries are str() / repr() / raw_size / len() and update(); mutators are add_boot_section, BootSectionV2.append, section[i] = command, "
         "section.uid = id on objects built through the classes; header values (versions, keys, nonce, timestamp, flags) are not changed inside a history; "
         "an object obtained from parse() is not re-exported",
+        "ownership lane: a mutable buffer is asserted where the API admits one explicitly - the data of CmdLoad (bytes or bytearray, checked by the constructor); "
+        "what is given is what the buffer holds at the constructor call (the tree takes `bytes(data)` there); the buffer is modified only after the construction "
+        "of a command and before the first export that carries it.  Aliasing of the KEK (BootImageV20 / V21), of DEK / MAC key / nonce / padding "
+        "(SBV2xAdvancedParams) and of the padding argument of export() is NOT asserted: reference kept as built, the annotations say `bytes`, nothing admits a "
+        "mutable buffer there (ImageHeaderV2.export refuses a nonce that is not `bytes`) and the documentation does not settle it.  That SPSDK never writes "
+        "into the caller's buffer is recorded as an observation (evidence: ownership_lane), not asserted.  Outside the asserted domain as well: a change of an attribute of a command object after it was handed over (the builder holds the caller's object by design), a memoryview, "
+        "and a buffer extended by less than a cipher block behind a command that was already made (indistinguishable from padding, whose content is free)",
     ]
     return v.finish()
 
